@@ -11,6 +11,7 @@ if ! git apply --check "$patch" 2>/dev/null; then
 else
   git apply "$patch"
 fi
+mkdir -p /tmp/seedtest_root; cp /verif/known_findings.jsonl /tmp/seedtest_root/
 for id in "$@"; do
   out=$(cd /verif && VERIF_ROOT=/tmp/seedtest_root ./run.sh "$id" quick 2>&1); code=$?
   sig=$(echo "$out" | grep -m1 "signature:" | sed 's/.*signature: //')
